@@ -884,6 +884,9 @@ impl<'c> World<'c> {
             let mut cx = Context::from_waker(&s.waker);
             n += 1;
             if let Poll::Ready(()) = task.as_mut().poll(&mut cx) {
+                if std::env::var("VERIF_DUMP").is_ok() {
+                    eprintln!("task {} completed at clock {}", side, self.clock);
+                }
                 s.task = None;
                 s.attach_tx = None;
                 s.pending_attach.clear();
@@ -1156,6 +1159,9 @@ impl<'c> World<'c> {
                         break;
                     }
                     progress += n;
+                    if std::env::var("VERIF_DUMP").is_ok() {
+                        eprintln!("relay: {} bytes out of side {}: {:?}", n, from, rb.filled());
+                    }
                     let frames = s.out_parser.feed(rb.filled());
                     s.wire.extend(frames);
                     s.pipe.extend_from_slice(rb.filled());
